@@ -4,6 +4,7 @@ import (
 	"errors"
 	"fmt"
 	"google.golang.org/grpc/codes"
+	"google.golang.org/grpc/metadata"
 	"io"
 
 	"github.com/jhump/grpctunnel/tunnelpb"
@@ -54,6 +55,12 @@ func runIDRace(w *World, rs *RunSpec) {
 			p.CancelAfter.Actor = "start"
 		case 7: // credentials need a secure channel
 			p.Creds = &SimCreds{Secure: true, MD: map[string]string{"k": "v"}}
+		}
+		if i%5 == 3 && p.Creds == nil && p.CancelAfter.Actor != "start" {
+			// refused before anything is sent: a metadata value that cannot be
+			// encoded (by position, not by a draw); nothing of it may reach the wire
+			p.ReqMD = metadata.MD{"sim-bad": []string{"\xff\xfe"}}
+			p.expectLocalReject = true
 		}
 		plans = append(plans, p)
 	}
